@@ -5,7 +5,7 @@ from __future__ import annotations
 import traceback
 from typing import Any
 
-from .kernel import HarnessError, RunResult, Trace, Violation
+from .kernel import HarnessError, RunResult, Trace, Violation, is_resource_failure
 from .seams import simulation
 
 WORLD_A = {"C10", "C12", "C17", "C19"}
@@ -53,14 +53,25 @@ def execute(plan: dict[str, Any], *, keep_events: bool = False) -> RunResult:
         res.nontrivial = bool(summary.get("nontrivial", False))
         res.shape_key = str(summary.get("shape_key", ""))
     except Violation as v:
-        res.violation = {"inv": v.inv, "step": tr.step, "msg": v.msg}
-        tr.ev("VIOLATION", v.inv, v.msg)
+        if is_resource_failure(v.msg):
+            # an allocation failed under RLIMIT_AS somewhere below an oracle: no verdict for
+            # this run (counted and reported in the evidence), never a violation
+            tr.count("skipped:resource")
+            tr.ev("SKIPPED", "resource", v.inv)
+        else:
+            res.violation = {"inv": v.inv, "step": tr.step, "msg": v.msg}
+            tr.ev("VIOLATION", v.inv, v.msg)
     except HarnessError as e:
         res.harness_error = f"HarnessError: {e}"
     except MemoryError:
-        res.harness_error = "MemoryError (address-space limit)"
+        tr.count("skipped:resource")
+        tr.ev("SKIPPED", "resource", "MemoryError")
     except Exception as e:  # a bug in the harness, never a violation
-        res.harness_error = f"{type(e).__name__}: {e}\n" + traceback.format_exc(limit=8)
+        if is_resource_failure(f"{type(e).__name__}: {e}"):
+            tr.count("skipped:resource")
+            tr.ev("SKIPPED", "resource", type(e).__name__)
+        else:
+            res.harness_error = f"{type(e).__name__}: {e}\n" + traceback.format_exc(limit=8)
     res.digest = tr.digest()
     res.stats = dict(tr.stats)
     res.steps = max(tr.step, 0)
